@@ -14,6 +14,8 @@ func vc11Lines(class int) ([]Line, string) {
 		return []Line{{Items: []LineItem{{Text: "a"}}}}, "a"
 	case 1:
 		return []Line{{Items: []LineItem{{Text: "b"}}}}, "b"
+	case 2: // two lines, the first one being the text of class 0
+		return []Line{{Items: []LineItem{{Text: "a"}}}, {Items: []LineItem{{Text: "b"}}}}, "a\nb"
 	default: // same text as class 0, spread over two runs
 		return []Line{{Items: []LineItem{{Text: "a"}, {Text: ""}}}}, "a"
 	}
@@ -22,7 +24,7 @@ func vc11Lines(class int) ([]Line, string) {
 // C11 Unfragment: merge law.  BV64.  Any order, overlaps, duplicates.
 func VH_C11_Unfragment() {
 	n := 1 + choose(vbound("cues", 3, 4))
-	nclass := vbound("texts", 2, 3)
+	nclass := vbound("texts", 3, 4)
 	s := NewSubtitles()
 	var in []vc11Cue
 	for i := 0; i < n; i++ {
@@ -50,7 +52,7 @@ func VH_C11_Unfragment() {
 		}
 	}
 	// same texts on screen at every instant
-	for _, text := range []string{"a", "b"} {
+	for _, text := range []string{"a", "b", "a\nb"} {
 		before, after := false, false
 		for _, c := range in {
 			if c.text == text {
